@@ -87,7 +87,19 @@ namespace MEDDLY {
                     const edge_value &av, node_handle ap, oper_item &result);
 
         protected:
-            void _compute(node_handle A, oper_item &result);
+            /// Range of the function below an edge to node A,
+            /// where the edge comes from (just above) level L.
+            void _compute(int L, node_handle A, oper_item &result);
+
+            /// Does an edge from level L to a node at level Alevel
+            /// skip over an identity pattern (which has zeroes
+            /// off the diagonal)?
+            inline bool skipsIdentity(int L, int Alevel) const
+            {
+                if (!argF->isIdentityReduced()) return false;
+                // identity patterns are skipped primed levels
+                return (L>0) ? (ABS(Alevel) < L) : (Alevel != L);
+            }
 
         private:
             ct_entry_type* ct;
@@ -126,12 +138,25 @@ void MEDDLY::range_templ<RTYPE>::compute(int L, unsigned in,
 #ifdef TRACE
     out.indentation(0);
 #endif
-    _compute(ap, result);
+    _compute(L, ap, result);
 }
 
 template <class RTYPE>
-void MEDDLY::range_templ<RTYPE>::_compute(node_handle A, oper_item &r)
+void MEDDLY::range_templ<RTYPE>::_compute(int L, node_handle A, oper_item &r)
 {
+    const int Alevel = argF->getNodeLevel(A);
+    if (A && skipsIdentity(L, Alevel)) {
+        //
+        // The edge expands to an identity pattern:
+        // the function is also zero off the diagonal.
+        //
+        oper_item zero(RTYPE::getOpndType());
+        RTYPE::initItem(zero, 0);
+        _compute(Alevel, A, r);
+        RTYPE::updateItem(r, zero);
+        return;
+    }
+
     //
     // Terminal case
     //
@@ -154,11 +179,15 @@ void MEDDLY::range_templ<RTYPE>::_compute(node_handle A, oper_item &r)
     //
     // Do computation
     //
-    unpacked_node* Au = unpacked_node::newFromNode(argF, A, SPARSE_ONLY);
-    _compute(Au->down(0), r);
+    // Full, so that the zeroes of a sparse node are seen
+    unpacked_node* Au = unpacked_node::newFromNode(argF, A, FULL_ONLY);
+    const int Anextlevel = argF->isForRelations()
+        ? MXD_levels::downLevel(Alevel)
+        : MDD_levels::downLevel(Alevel);
+    _compute(Anextlevel, Au->down(0), r);
     oper_item tmp(RTYPE::getOpndType());
     for (unsigned i=1; i<Au->getSize(); i++) {
-        _compute(Au->down(i), tmp);
+        _compute(Anextlevel, Au->down(i), tmp);
         RTYPE::updateItem(r, tmp);
     }
 
